@@ -39,6 +39,25 @@ CLAIMED = {
             "Default flags in refdict are frozen from the pinned tree (the published list has no flags); any "
             "exception counts as rejection; UTF-8 validity and negative Unsigned64 are not judged.",
             "DESIGN.md 4/C10"),
+    "C03": ("ENUM", "fault_enumeration",
+            "systematic fault enumeration on reference-encoded seeds under a deterministic step counter",
+            "Every truncation point, every length field (all nesting levels) x a value alphabet, every byte x 4 "
+            "replacements, typed-data faults for every dictionary class, garbage strings, through the three load "
+            "entry points under a sys.monitoring line counter with a frozen bound 150000 + 5300 L + 0.2 L^2; "
+            "thorough adds all 2^24 values on two length fields of a DWR.",
+            "Decoder part only in this tree (the live-node part is listed in DESIGN.md as not yet decided); step = "
+            "one bromelia source line; which library error is raised is not constrained.",
+            "DESIGN.md 4/C03"),
+    "C04": ("SCHED", "model_checking",
+            "stateless deviation-bounded schedule exploration of the real receive path on a virtual runtime with a fake socket",
+            "Real Diameter node (association, TcpClient/TcpServer, state machine) opened by the real handshake; a scripted "
+            "peer delivers message sequences of length 1..2 (3) chunk by chunk: every 1-cut at byte granularity and "
+            "byte-at-a-time at d = 0 in both roles, curated (sequence, cut, role) triples at d <= 1 (quick 6, thorough "
+            "~70) and two at d <= 2; oracle: get_message() returns exactly the application messages sent, once, whole, "
+            "in order; emitted DWAs follow the DWR order; no deadlock/livelock.",
+            "Line-level atomicity at shared-attribute lines + every synchronisation/socket/selector operation; fake "
+            "socket/selector semantics of Linux loopback; handshake is a deterministic prefix; bounded deviations.",
+            "DESIGN.md 4/C04"),
     "C09": ("ENUM", "exploration",
             "bounded-exhaustive enumeration of constructor-argument subsets against a hand-written command table",
             "All 50 typed classes (discovered by introspection) x subsets of omittable arguments (sizes 0,1,2,n "
@@ -94,6 +113,16 @@ CLAIMED = {
             "Sequential dispatch (concurrency is C14); in-process Worker with a stand-in manager; unregistered "
             "pairs and non-Exception BaseExceptions are outside the statement.",
             "DESIGN.md 4/C13"),
+    "C14": ("SCHED", "model_checking",
+            "stateless deviation-bounded schedule exploration of the real threads on a virtual runtime",
+            "Real Bromelia.send_message, Worker.send_handler, Bromelia.main and answer-dispatch threads with k = "
+            "1..2 (3) callers and a scripted peer answering in every order: every schedule with <= 1 (quick) / <= 2 "
+            "(thorough, k = 1 and eager k = 2) deviations from the fair default scheduler, where a deviation is a "
+            "non-default thread choice at a synchronisation operation or shared-attribute source line, or a long "
+            "stall of the running thread; oracle: every caller returns its own answer, none twice, none never.",
+            "In-process Worker with a stand-in manager and a stub connection below it; line-level atomicity; bounded "
+            "number of deviations; liveness under the fair continuation after the last deviation.",
+            "DESIGN.md 4/C14"),
     "C15": ("HIST", "model_checking",
             "exhaustive exploration of creation histories x the answer tree of the random source on the real constructors",
             "All creation histories of length <= 3/4 over 6 creation kinds x every os.urandom answer sequence over a "
